@@ -249,6 +249,11 @@ class ObjRunner:
         seq = interp.ev(st.iter)
         if isinstance(seq, Unknown):
             raise AnalysisError(f"object model: loop over undetermined sequence {U(st.iter)!r}")
+        if isinstance(seq, dict) and "__class__" in seq:
+            if callable(seq.get("__lines__")):
+                seq = seq["__lines__"]()  # a file model: iteration yields the remaining lines
+            else:
+                raise AnalysisError(f"object model: loop over the object {U(st.iter)!r}")
         broke = False
         for item in list(seq):
             interp.store(st.target, item, st)
@@ -272,6 +277,18 @@ class ObjRunner:
             if isinstance(seq, Unknown):
                 raise AnalysisError(f"object model: {name} over an undetermined sequence")
             return [fn(x) for x in list(seq)] if name == "map" else [x for x in list(seq) if fn(x)]
+        if name == "iter" and len(call.args) == 2 and name not in interp.env and isinstance(call.args[0], ast.Lambda) and not call.args[0].args.args:
+            sentinel = interp.ev(call.args[1])
+            out = []
+            while True:
+                val = interp.ev(call.args[0].body)
+                if isinstance(val, Unknown):
+                    raise AnalysisError(f"object model: {U(call)[:60]!r} yields an undetermined value")
+                if val == sentinel:
+                    return out
+                out.append(val)
+                if len(out) > 100000:
+                    raise AnalysisError(f"object model: {U(call)[:60]!r} does not reach its sentinel")
         if name == "isinstance" and len(call.args) == 2:
             args = [interp.ev(call.args[0])]
         else:
